@@ -28,6 +28,7 @@ type Env struct {
 	result Val
 	reach  string
 	depth  int
+	sec    Heap // heap at the start of the current critical section (atsection(e))
 }
 
 var mathInt = types.Typ[types.Int]
@@ -233,7 +234,9 @@ func (env *Env) ident(name string) (Val, error) {
 	if env.fr != nil && env.at != nil {
 		if sv, isAddr, ok := env.fr.lookupName(name, env.at, env.atEnd); ok {
 			var v Val
-			if ov, ok := env.over[sv]; ok {
+			if u, isUndef := sv.(undefinedHere); isUndef {
+				v = env.vc.freshVal("undef_"+name, u.Value.Type(), env.heap)
+			} else if ov, ok := env.over[sv]; ok {
 				v = ov
 			} else if _, isParam := sv.(*ssa.Parameter); isParam {
 				v = env.fr.val(sv)
@@ -242,7 +245,8 @@ func (env *Env) ident(name string) (Val, error) {
 			} else if _, isC := sv.(*ssa.Const); isC {
 				v = env.fr.val(sv)
 			} else {
-				return Val{}, fmt.Errorf("variable %s is not available at this point", name)
+				// not defined on this path: an arbitrary value (the clause must hold for every value)
+				v = vc0(env).freshVal("undef_"+name, sv.Type(), env.heap)
 			}
 			if isAddr {
 				pt, ok := v.Typ.Underlying().(*types.Pointer)
@@ -653,6 +657,13 @@ func (env *Env) call(x *ast.CallExpr) (Val, error) {
 		n := env.sub()
 		n.heap = env.old
 		return n.eval(x.Args[0])
+	case "atsection":
+		if env.sec.m == nil {
+			return Val{}, fmt.Errorf("atsection(): no critical section has been entered on this path")
+		}
+		n := env.sub()
+		n.heap = env.sec
+		return n.eval(x.Args[0])
 	case "implies":
 		a, err := env.evalBool(x.Args[0])
 		if err != nil {
@@ -917,6 +928,11 @@ func (env *Env) call(x *ast.CallExpr) (Val, error) {
 			return Val{}, err
 		}
 		return boolVal(sAnd(cs...)), nil
+	case "calls":
+		cn := strings.ReplaceAll(exprStr(x.Args[0]), ".", "__")
+		name := "$calls_" + cn
+		vc.mapSort(name, "Int")
+		return mathVal(sApp("-", vc.hget(env.heap, name), vc.hget(vc.heap0, name))), nil
 	case "sameheap":
 		// sameheap(Type.field, ...): the named field maps are identical to the old state
 		var cs []string
@@ -1008,3 +1024,5 @@ func (env *Env) fieldOfIdx(base Val, t types.Type, i int) (Val, error) {
 	si := vc.structInfoOf(t)
 	return Val{T: sApp(si.fields[i], base.T), Typ: ft}, nil
 }
+
+func vc0(env *Env) *VC { return env.vc }
